@@ -513,7 +513,7 @@ package signal
 // ---------------------------------------------------------------------------
 
 //@ func getBitDepth[T]()
-//@   props C13
+//@   props C13 C06 C07 C08 C09
 //@   insts named
 //@   mode precise
 //@   pure
@@ -531,7 +531,7 @@ package signal
 //@     | && cap(result.data) == bi(a.Channels, 0, a.Capacity)
 //@   ensures[reports: C13] a.Channels >= 1 ==> cdiv(len(result.data), a.Channels) == a.Length && fdiv(cap(result.data), a.Channels) == a.Capacity
 //@   ensures[zeroed: C13 C10] forall(q, 0, cap(result.data), at(result, q) == zero(T))
-//@   ensures[bit-depth: C13 C10] result.bitDepth == width(T)
+//@   ensures[bit-depth: C13 C10 C06 C07 C08 C09] result.bitDepth == width(T)
 //@   ensures[wf] wf(result)
 //@   ensures[others-untouched: C13 C10] heapSameBelow(result) && hdrSameExcept(result)
 //@   ensures[allocs] allocs == old(allocs) + 2
